@@ -56,11 +56,35 @@ TRUSTED = ['hand-written model coq/Model/Metadata.v tied to biom/table.py (add_m
            'extraction (ExtrOcamlBasic only) + ocaml/driver_tail.ml, cross-checked against vm_compute on a sample']
 from . import regen_dyn as _regen_dyn
 # py2v_dyn (state mode): regenerate coq/Gen/MetadataGen.v from Table.add_metadata / Table.del_metadata first
-regenerate = _regen_dyn.hook(TRUSTED, ['metadata'], tie=(
+_regenerate_metadata = _regen_dyn.hook(TRUSTED, ['metadata'], tie=(
     'tied to the hand-written model coq/Model/Metadata.v (add_metadata, del_metadata) by the *_is_source theorems at the '
     'end of coq/Props/C18.v (coq/Proofs/GenBridgeMetadataProofs.v); trusted: the translator tools/py2v_dyn/statemode.py, its '
     'signature file tools/py2v_dyn/sigs/metadata.json (Table.metadata / ids / exists / index / _index / _cast_metadata pinned by '
     'the hash of their AST) and the tb_* vocabulary coq/Gen/MetaPrelude.v'))
+# py2v (mapping-file mode): regenerate coq/Gen/MapFileGen.v from MetadataMap.from_file (biom/parse.py) as well;
+# tied to strip_f / map_step / row_dict / parse_mapping of coq/Model/Metadata.v by strip_f_is_source,
+# from_file_line_is_source, from_file_cols_is_source, from_file_is_source (coq/Proofs/GenBridgeMapFileProofs.v)
+from . import regen as _regen
+from . import core as _core
+_MAPFILE_TRUSTED = []
+_regenerate_mapfile = _regen.hook(_MAPFILE_TRUSTED, ['mapfile'])
+
+
+def regenerate():
+    """both translators run, also when the first one refuses its source"""
+    first = None
+    try:
+        _regenerate_metadata()
+    except _core.Broken as e:
+        first = e
+    try:
+        _regenerate_mapfile()
+    finally:
+        TRUSTED.extend(_MAPFILE_TRUSTED)
+    if first is not None:
+        raise first
+
+
 ASSUMPTIONS = ['mappings are Python dicts (unique ids, unique keys)',
                'a mapping does not hand add_metadata the live metadata objects of the very axis it updates',
                'metadata values are only moved, never inspected, by add/del',
